@@ -178,6 +178,14 @@ def replay(ctx, o):
             err = max(abs(a - b) for a, b in zip(du, cr))
             return err > 1e-4 * r0, 'native d/dphi Spherical_Coordinates(%r,%r,phi=%r,axis=%s) = %s but n^ x u = %s' % (r0, th2, ph, ax, du, cr)
         return (errn > 1e-9 * r0 or errp > 1e-9 * r0), 'native result %s: |u|-r = %.3g, u.n^ - r cos(theta) = %.3g' % (u, errn, errp)
+    if key == 'C16/spherical/plain':
+        worst = (0.0, None)
+        for (r0, th, ph) in ((1.0, 0.7, 0.3), (2.5, 2.1, -1.2), (0.4, 1.3, 2.8), (3.0, 0.2, 4.0)):
+            r = native_la(ctx, 81, [r0, th, ph], vecA=True)
+            if r['status'] != 'ok': return True, 'native Spherical_Coordinates(%r,%r,%r): %s' % (r0, th, ph, r['status'])
+            want = [r0 * math.sin(th) * math.cos(ph), r0 * math.sin(th) * math.sin(ph), r0 * math.cos(th)]; e = max(abs(a - b) for a, b in zip(r['out'][:3], want))
+            if e > worst[0]: worst = (e, (r0, th, ph, r['out'][:3], want))
+        return worst[0] > 1e-12, 'native Spherical_Coordinates(r,theta,phi) against r (sin theta cos phi, sin theta sin phi, cos theta): worst deviation %.3g at %s' % (worst[0], worst[1])
     if key.startswith('C16/rot3d') and 'axis' in m:
         ax = [fl(q) for q in m['axis']]
         if all(x == 0 for x in ax): return False, 'zero axis'
